@@ -305,8 +305,11 @@ end f8
 section shallow
 
 /-- A shallow clone of depth 1: commit 1 (tree 3, parent 2) is a graft point, its parent 2 (tree 4) is not
-there.  Deepening / unshallowing (`GitClient.fetch` with `depth`, server answers `unshallow 1`) must install
-the pack holding 2 and 4 first and only then rewrite `shallow`. -/
+there.  Deepening / unshallowing must install the pack holding 2 and 4 first and only then rewrite
+`shallow`.  This is the order as coded now on every path: `GitClient.fetch` (smart transports: `commit()`
+of the pack, then `update_shallow`) and — since /repo PENDING-1 — `Repo.fetch` / `LocalGitClient` (the graph
+walker's `update_shallow` is applied after `add_pack_data`); all recorded deepen / unshallow programs in
+Gen/Traces.lean have this shape and are accepted. -/
 def specUnshallow : Spec :=
   { edges := [(1, [3], [2]), (2, [4], []), (3, [], []), (4, [], [])],
     known := [(.ref 1, some (.refSha 1)), (.loose 1, some (.obj 1)), (.loose 3, some (.obj 3)),
@@ -347,7 +350,9 @@ theorem shallow_grows_then_ref_safe :
        .write (.tmp 3) (.shallowSet [1]), .rename (.tmp 3) .shallow,
        .write (.tmp 4) (.refSha 1), .rename (.tmp 4) (.ref 1)] = true := by decide
 
-/-- Negative twin: `update_shallow` moved BEFORE the pack is committed. -/
+/-- Negative twin and regression witness: `update_shallow` BEFORE the pack is stored — the order
+`Repo.fetch` used before /repo PENDING-1 (via `find_missing_objects`), and what moving `update_shallow`
+before `commit()` in `GitClient.fetch` would give. -/
 def progUnshallowEarly : List Call :=
   [.unlink .shallow,
    .write (.tmp 1) (.packData 1), .rename (.tmp 1) (.pack 1),
